@@ -10,7 +10,7 @@ RULE = ('seeded histories weighted towards view/section/field/summary/display-fo
         'bundle; non-trivial = emitted >=1 stored action on a _grist_* table and changed >=1 cell; distinct by (user-action '
         'kinds, stored-action shape).')
 ASSUMPTIONS = ['the generator never writes a dangling metadata reference itself, so a dangling one was produced by the engine',
-               'a bundle that shows the open finding regroup_loses_field_of_renamed_formula_column is reported under that key and '
+               'a bundle that shows the open finding regroup_leaves_field_behind is reported under that key and '
                'taken back with its own undo actions, so that later bundles are judged on consistent metadata']
 REQUIRED = {'C09.checked': {'quick': 20000, 'thorough': 200000}, 'bundles_ok': {'quick': 300, 'thorough': 2000}}
 
@@ -20,27 +20,31 @@ WEIGHTS = {'add_records': 5, 'update_records': 4, 'remove_records': 2, 'add_view
            'rename_column': 2, 'duplicate_table': 1.5, 'add_ref_column': 4, 'copy_from_column': 1, 'convert_from_column': 0.6,
            'add_filter': 1, 'add_reverse': 1.5, 'invalid': 1, 'remove_stale': 0.5, 'add_visible_column': 1.5, 'add_field': 3}
 
-KNOWN = 'regroup_loses_field_of_renamed_formula_column'
+KNOWN = 'regroup_leaves_field_behind'
 
 
 def plan(tier, seed):
   n, steps = (16, 45) if tier == 'quick' else (64, 80)
-  return [{'witness': 'regroup_renamed_formula_column'}] + \
+  return [{'witness': 'regroup_renamed_formula_column'}, {'witness': 'regroup_duplicate_field'}] + \
          [{'hseed': seed * 100003 + 9000 + i, 'steps': steps} for i in range(n)]
 
 
-def fields_of_renamed_formula_columns(S0, S1):
+def fields_left_behind_by_regroup(S0, S1):
   """
   Mechanism of the open finding (DESIGN.md 3.6). When a summary section is moved to another summary
-  table (UpdateSummaryViewSection, or RemoveColumn of a group-by source column), a formula column whose
-  id is already taken in the new table by a column with a *different* formula is added there under a
-  new id (count -> count2); update_summary_section looks the section's fields up by the new id, finds
-  none, and leaves the field pointing at the column of the old table (which then belongs to another
-  table, or is removed with it, leaving colRef = 0).
-  Returns the set of field ids that match: before the bundle the field showed a formula column
-  (not 'group') of summary table A; after it its section belongs to another summary table B, and B
-  holds a column with the old column's formula under another id while the old id is taken in B by
-  a column with another formula.
+  table (UpdateSummaryViewSection, or RemoveColumn of a group-by source column),
+  update_summary_section re-points the section's fields through a map {column id -> field}:
+   (a) a formula column whose id is already taken in the new table by a column with a *different*
+       formula is added there under a new id (count -> count2), the map is asked for the new id, and
+       the field that showed the column is left pointing at the column of the old table;
+   (b) when two fields of the section show the same column, the map holds only one of them and the
+       other is left pointing at the column of the old table.
+  The old column then belongs to another table, or is removed with it, leaving colRef = 0.
+  Returns the set of field ids that match: the field exists before and after the bundle, before it
+  showed a column (for (a): a formula column other than 'group') of summary table A, after it its
+  section belongs to another summary table B, and (a) B holds a column with the old column's formula
+  under another id while the old id is taken in B by a column with another formula, or (b) another
+  field of the same section showed the same column before the bundle.
   """
   C0 = rows_of(S0, '_grist_Tables_column')
   C1 = rows_of(S1, '_grist_Tables_column')
@@ -51,20 +55,25 @@ def fields_of_renamed_formula_columns(S0, S1):
   S1s = rows_of(S1, '_grist_Views_section')
   out = set()
   for f, rec in F1.items():
-    if f not in F0 or rec['parentId'] not in S1s:
+    if f not in F0 or rec['parentId'] not in S1s or F0[f]['parentId'] != rec['parentId']:
       continue
     c0 = C0.get(F0[f]['colRef'])
-    if not c0 or not c0['isFormula'] or c0['colId'] == 'group':
+    if not c0:
       continue
     a = c0['parentId']
     b = S1s[rec['parentId']]['tableRef']
     if a == b or a not in T0 or b not in T1 or not T0[a]['summarySourceTable'] or not T1[b]['summarySourceTable']:
       continue
+    if any(g != f and x['parentId'] == F0[f]['parentId'] and x['colRef'] == F0[f]['colRef'] for g, x in F0.items()):
+      out.add(f)      # (b)
+      continue
+    if not c0['isFormula'] or c0['colId'] == 'group':
+      continue
     bcols = [c for c in C1.values() if c['parentId'] == b]
     same_id_other_formula = any(c['colId'] == c0['colId'] and c['formula'] != c0['formula'] for c in bcols)
     other_id_same_formula = any(c['colId'] != c0['colId'] and c['formula'] == c0['formula'] and c['isFormula'] for c in bcols)
     if same_id_other_formula and other_id_same_formula:
-      out.add(f)
+      out.add(f)      # (a)
   return out
 
 
@@ -89,10 +98,43 @@ def witness_regroup_renamed_formula_column(acc):
     S1 = snapshot.take(p)
     det = []
     msgs = invariants.c09(S1, det)
-    known = fields_of_renamed_formula_columns(S0, S1)
+    known = fields_left_behind_by_regroup(S0, S1)
     for (mech, msg), info in zip(msgs, det):
       if mech in ('field.colRef', 'field.colRef.table') and info.get('field') in known:
         acc.violation(KNOWN, 'witness: [RemoveColumn T D] with an edited count column in T_summary_D: %s' % msg, {})
+      else:
+        acc.violation(mech, 'witness history: %s' % msg, {})
+
+
+def witness_regroup_duplicate_field(acc):
+  """Open finding, case (b): the summary section of T by D shows 'count' in two fields; regrouping it
+  by nothing re-points one of them and leaves the other with colRef = 0."""
+  from vlib.client import EngineProc
+  with EngineProc() as p:
+    p.init_doc()
+    p.apply([['AddTable', 'T', [{'id': 'A', 'type': 'Int', 'isFormula': False}, {'id': 'D', 'type': 'Choice', 'isFormula': False}]]])
+    p.apply([['BulkAddRecord', 'T', [None, None], {'A': [1, 2], 'D': ['a', 'b']}]])
+    r = p.apply([['CreateViewSection', 1, 1, 'record', [3], None]])
+    sec = r.ret[0]['sectionRef']
+    S = snapshot.take(p)
+    C = rows_of(S, '_grist_Tables_column')
+    T = rows_of(S, '_grist_Tables')
+    st = [t for t, rec in T.items() if rec['tableId'] == 'T_summary_D'][0]
+    count = [c for c, rec in C.items() if rec['parentId'] == st and rec['colId'] == 'count'][0]
+    p.apply([['AddRecord', '_grist_Views_section_field', None, {'parentId': sec, 'colRef': count}]])
+    S0 = snapshot.take(p)
+    acc.count('witness_runs')
+    if invariants.c09(S0):
+      acc.violation('witness_setup', 'witness history: metadata inconsistent before the trigger: %s' % invariants.c09(S0)[:2], {})
+      return
+    p.apply([['UpdateSummaryViewSection', sec, []]])
+    S1 = snapshot.take(p)
+    det = []
+    msgs = invariants.c09(S1, det)
+    known = fields_left_behind_by_regroup(S0, S1)
+    for (mech, msg), info in zip(msgs, det):
+      if mech in ('field.colRef', 'field.colRef.table') and info.get('field') in known:
+        acc.violation(KNOWN, 'witness: [UpdateSummaryViewSection <section of T by D showing count twice> []]: %s' % msg, {})
       else:
         acc.violation(mech, 'witness history: %s' % msg, {})
 
@@ -111,7 +153,7 @@ class MetaRefs(histories.Monitor):
     det = []
     msgs = invariants.c09(S1, det)
     acc.count('C09.checked', sum(len(S1[t][0]) for t in S1 if t.startswith('_grist_')))
-    known = fields_of_renamed_formula_columns(ctx.S0, S1) if msgs else set()
+    known = fields_left_behind_by_regroup(ctx.S0, S1) if msgs else set()
     hit = False
     shown = 0
     for (mech, msg), info in zip(msgs, det):
